@@ -2,8 +2,8 @@
 # usage: tools/import_seed.sh C05 slug  -> seeded/C05-slug/{patch.diff,demo.py,notes.md,meta.json}
 set -e
 cd "$(dirname "$0")/.."
-ID=$1; SLUG=$2; D=seeded/$ID-$SLUG
+ID=$1; SLUG=$2; SRC=${3:-/tmp/seed-$ID}; D=seeded/$ID-$SLUG
 mkdir -p $D
-cp /tmp/seed-$ID/patch.diff /tmp/seed-$ID/demo.py /tmp/seed-$ID/notes.md $D/
+cp $SRC/patch.diff $SRC/demo.py $SRC/notes.md $D/
 [ -f $D/meta.json ] || echo "{\"property\": \"$ID\", \"checks\": [\"$ID\"]}" > $D/meta.json
 echo $D
